@@ -32,7 +32,7 @@ from . import irkit, tkit, emit, catalog, c05, c12
 from .common import WORKERS, conc_vt, run_mutants
 
 PROP = "C16"
-FILTER = r"fbody#|#den-independent|get_exec_op_list#|#registered|lemma#|code_format#|#total|#raw|#emit|#loop"
+FILTER = r"fbody#|#den-independent|get_exec_op_list#|#registered|lemma#|code_format#|#total|#raw|#emit|#loop|#frame"
 
 MUTANTS = [
     {"name": "fbody: READ_STATEMENTS layout skips the read block", "file": "rzilcompiler/Transformer/RZILTransformer.py",
@@ -216,7 +216,8 @@ def gen_registered(loader, check, replay_on=True):
         "unary_expr": lambda it: [Token("UNARY_OP", "-"), V(it, "a")],
         "conditional_expr": lambda it: [V(it, "c"), V(it, "a"), V(it, "b", (True, 64))],
         "cast_expr": lambda it: [conc_vt(loader, (False, 64)), V(it, "a")],
-        "assignment_expr": lambda it: [irkit.mk_var(it, "d", (True, 32)), Token("ASSIGN_OP", "+="), V(it, "s")],
+        **{f"assignment_expr({op})": (lambda it, op=op: [irkit.mk_var(it, "d", (True, 32)), Token("ASSIGN_OP", op), V(it, "s")])
+           for op in ("+=", "-=", "*=", "/=", "%=", "&=", "|=", "^=", "<<=", ">>=")},
         "assignment_expr(=)": lambda it: [irkit.mk_var(it, "d", (True, 32)), Token("ASSIGN_OP", "="), irkit.mk_operand(it, "CompareOp", (True, 32), "s")],
         "mem_store": lambda it: [Token("MEM_STORE", "mem_store_"), Token("SIGN_TYPE", "u"), Token("BIT_WIDTH", "16"), V(it, "ea", (False, 32)), V(it, "d")],
         "mem_load": lambda it: [Token("MEM_LOAD", "mem_load_"), Token("SIGN_TYPE", "s"), Token("BIT_WIDTH", "16"), V(it, "ea", (False, 32))],
@@ -318,12 +319,22 @@ def gen_task(loader, check, what, replay_on=True):
     if what == "loops":
         c12.gen_emit_loops(loader, check, replay_on)
         return
+    if what == "frame":
+        # the text a node emits does not depend on which other node was emitted before: emitters change nothing but read /
+        # declaration counters (so the two layouts, which emit in different orders, render every node identically up to DUP)
+        from . import catalog, c05
+        catalog.gen_pureexec(loader, check, replay_on)
+        catalog.gen_leaf_reads(loader, check, replay_on)
+        catalog.gen_misc_nodes(loader, check, replay_on)
+        c05.gen_effect_emission(loader, check, replay_on)
+        c05.gen_sequence(loader, check, replay_on)
+        return
     {"shapes": gen_shapes, "den": gen_den_independent, "exec_list": gen_exec_list, "registered": gen_registered, "lemma": gen_lemma}[what](loader, check, replay_on)
 
 
 def generate_reduced(loader, check):
     check.ob_filter = FILTER
-    for w in ("shapes", "den", "exec_list", "registered", "lemma"):
+    for w in ("shapes", "den", "exec_list", "registered", "lemma", "frame"):
         gen_task(loader, check, w, False)
 
 
@@ -334,7 +345,7 @@ def run(check: Check):
                 "every reachable node initialised exactly once in both (coverage lemma + C12 folds), texts of reads differ only by DUP")
     check.assume("A-NAMES: add_op through its contract; the holder ghost list 'added' is the registration record")
     check.ob_filter = FILTER
-    check.run_parallel("contracts.c16", "gen_task", [{"what": w} for w in ("shapes", "den", "exec_list", "registered", "lemma", "loops")], workers=WORKERS,
+    check.run_parallel("contracts.c16", "gen_task", [{"what": w} for w in ("shapes", "den", "exec_list", "registered", "lemma", "loops", "frame")], workers=WORKERS,
                        sink_attrs={"ob_filter": FILTER})
     run_mutants(check, MUTANTS, "contracts.c16", "generate_reduced")
     return check.finish(
